@@ -221,6 +221,14 @@ func runC09(r *R) {
 		}
 	}
 
+	// ---- R6
+	r.Rule("C09-R6", "a failed block write cannot wedge later saves: every write-throttle token acquired is released by the spawned goroutine on every path, including the PutB-error path", 2)
+	for _, name := range []string{"(*" + arv + ".filenode).pruneMemSegments", "(*" + arv + ".dirnode).commitBlock"} {
+		if fn := r.NeedFn("C09-R6", name); fn != nil {
+			throttlePairRule(r, "C09-R6", fn, Exits(fn))
+		}
+	}
+
 	// ---- R4 + R5
 	r.Rule("C09-R4", "marshalManifest reads node.segments only after dn.flush(ctx, names, flushOpts{sync:true, shortBlocks:true}) returned nil; any non-stored segment panics instead of being emitted", 2)
 	r.Rule("C09-R5", "every stream/file name in manifest text passes through manifestEscape, whose class matches single-byte runes only (manifestEscapeFunc encodes one byte)", 3)
